@@ -377,6 +377,16 @@ func (index *PatternIndex) mod(ctx *Context, pairs []piPair, id string, op piOp)
 		// have the same.  We implement this behavior by
 		// making additional branches for the property that
 		// has the array as a value.
+		if len(vv) == 0 && !have {
+			// An empty array asks nothing of the event's array, so
+			// nothing is filed under the key.  Don't leave the
+			// (empty) node for the key behind either: a search
+			// takes its presence to mean that it has to look at
+			// the event's value, and the next removal would
+			// prune it anyway - the index would depend on its
+			// history.
+			delete(si, k)
+		}
 		morePairs := make([]piPair, 0, len(vv))
 		// fmt.Printf("working array %v\n", vv)
 
